@@ -64,9 +64,9 @@ type ResJ struct {
 }
 
 type streamCfg struct {
-	drw   *dialect.ReadWriter
-	dl    []int // def indices (1-based) of the dialect, for the spec
-	key   *frame.V2Key
+	drw     *dialect.ReadWriter
+	dl      []int // def indices (1-based) of the dialect, for the spec
+	key     *frame.V2Key
 	bufSize int // size of the caller's bufio.Reader (0 = 512, what the library's own constructors use)
 }
 
